@@ -57,4 +57,18 @@ theorem twiceEdgePairs_eq (n : Nat) (val : Nat → Nat → Rat) :
     simp only [List.map_cons, List.sum_cons, Function.comp] at ih ⊢
     rw [ih, Nat.mul_add, choose_two_length]
 
+/-- `Σ_v deg v (deg v - 1)` is twice the number of connected triples -/
+theorem sum_degree_products (n : Nat) (adj : Nat → Nat → Bool) :
+    (((List.range n).map fun v => (nbrs n adj v).length).map fun d => d * (d - 1)).foldl (fun a b => a + b) 0 =
+      2 * tripleCount n adj := by
+  unfold tripleCount
+  have h1 : ∀ (l : List Nat) (a : Nat), l.foldl (fun a b => a + b) a = a + l.sum := foldl_add_sum
+  rw [h1, foldl_add_sum, Nat.zero_add, Nat.zero_add, List.map_map]
+  generalize List.range n = l
+  induction l with
+  | nil => rfl
+  | cons v vs ih =>
+    simp only [List.map_cons, List.sum_cons, Function.comp] at ih ⊢
+    rw [ih, Nat.mul_add, choose_two_length]
+
 end SkNet.Topology
